@@ -240,11 +240,21 @@ def interior (c : Config) : Bool :=
   -- heat / diffusion kernels: the width is commensurate with the generic data class (coordinates in (-4, 4), squared
   -- distances ≤ 64 D), so that exp(-dist²/width) stays far above the rounding unit (a float-level condition)
   | .dm | .le | .lpp => decide (64 * (c.D : Rat) ≤ 40 * c.width)
+  -- regularisers of the local problems: strictly positive and not dominating (the documented defaults are 1e-9, 1e-3)
+  | .klle | .npe => Rat.strictlyBetween 0 c.nullShift 1 && Rat.strictlyBetween 0 c.klleShift 1
+  | .kltsa | .lltsa => Rat.strictlyBetween 0 c.nullShift 1
   | _ => true
 
 /-- the finiteness clause of the property applies -/
 def mustBeFinite (c : Config) (data : DataClass) : Bool :=
   decide (data = .generic) && validated c && (violatedSites c).isEmpty && withinRank c && interior c &&
     (prediction c).ok.isSome
+
+/-- permitted observations of one call ON A GIVEN DATA CLASS: in general position (`mustBeFinite`) a validated call must
+    return its embedding — no exception class is permitted there, `eigendecomposition_error` is the answer to degenerate
+    data only.  Elsewhere `prediction`. -/
+def predictionOn (c : Config) (data : DataClass) : Prediction :=
+  let p := prediction c
+  if mustBeFinite c data then { p with throws := [] } else p
 
 end TapkeeVerif.Pipeline
